@@ -485,6 +485,99 @@ theorem wf_reachable_book (ops : List BookOp) (b : Book) (h : BookOk b)
       have := maxRelNum_sublist' hs2 0
       exact ih b' hok (by omega) (by omega)
 
+/-- the whole modelled class list: sheet operations on the workbook, part bookkeeping
+(addPart(kind) = relationship on the owning sheet + content-type registration; deletion of a
+table / picture / comment part = relationship removal + Override removal) and CopySheet's
+relationship copy. `srels` is the relationship list of one worksheet. -/
+inductive AllOp where
+  | newSheet (name : Str)
+  | deleteSheet (name : Str)
+  | addRel (ty tg md : Str)
+  | deleteRel (rid : Str)
+  | addContentTypePart (index : Int) (kind : Str)
+  | removeContentTypesPart (ctype part : Str)
+  | copyRels
+
+def stepAll (s : Book × List Rel) : AllOp → Out (Book × List Rel)
+  | .newSheet n => .ok (newSheet s.1 n, s.2)
+  | .deleteSheet n => (deleteSheet s.1 n).bind fun b' => .ok (b', s.2)
+  | .addRel ty tg md => .ok (s.1, (addRels s.2 ty tg md).1)
+  | .deleteRel rid => (deleteRel s.2 rid).bind fun r => .ok (s.1, r)
+  | .addContentTypePart i k => .ok ({ s.1 with ct := addContentTypePart s.1.ct i k }, s.2)
+  | .removeContentTypesPart c p => (removeContentTypesPart s.1.ct c p).bind fun ct => .ok ({ s.1 with ct := ct }, s.2)
+  | .copyRels => .ok (s.1, copyRels s.2)
+
+def runAll (s : Book × List Rel) : List AllOp → Out (Book × List Rel)
+  | [] => .ok s
+  | o :: os => (stepAll s o).bind fun s' => runAll s' os
+
+def allOpOk : AllOp → Prop
+  | .addRel ty _ _ => uniqPart ty = none
+  | .removeContentTypesPart c _ => c ≠ ctWorksheet
+  | _ => True
+
+theorem maxRelNum_filter_le (l : List Rel) (p : Rel → Bool) (m : Int) : maxRelNum (l.filter p) m ≤ maxRelNum l m :=
+  maxRelNum_sublist' List.filter_sublist m
+
+/-- `wf_reachable_all`: ONE induction over histories of the whole modelled class list — NewSheet,
+DeleteSheet, addRels / deleteSheetRelationships on a worksheet's relationships,
+addContentTypePart for every kind (tables, drawings, media defaults, comments, vml, charts,
+pivots, slicers …), removeContentTypesPart for every non-worksheet content type, CopySheet's
+relationship copy — from a `BookOk` workbook and a unique-id relationship list: nothing panics,
+and at the end the workbook is `BookOk` (hence `sheet_parts_bijective`, unique relationship ids,
+one Override per part) and the worksheet's relationship ids are unique. -/
+theorem wf_reachable_all (ops : List AllOp) (s : Book × List Rel)
+    (h : BookOk s.1) (hr : relsOk s.2) (hops : ∀ o ∈ ops, allOpOk o)
+    (hno : maxRelNum s.1.wbRels 0 + ops.length < 9223372036854775808)
+    (hid : maxSheetId s.1.sheets 0 + ops.length < 9223372036854775807)
+    (hsr : maxRelNum s.2 0 + ops.length < 9223372036854775808) :
+    ∃ s', runAll s ops = .ok s' ∧ BookOk s'.1 ∧ relsOk s'.2 := by
+  induction ops generalizing s with
+  | nil => exact ⟨s, rfl, h, hr⟩
+  | cons o os ih =>
+    have hlen : (o :: os).length = os.length + 1 := rfl
+    rw [hlen] at hno hid hsr
+    have hrest : ∀ o' ∈ os, allOpOk o' := fun o' ho' => hops o' (by simp [ho'])
+    cases o with
+    | newSheet n =>
+      have hb := newSheet_bounds s.1 n h (by omega) (by omega)
+      simp only [runAll, stepAll, Out.bind]
+      exact ih (newSheet s.1 n, s.2) (newSheet_ok s.1 n h (by omega) (by omega)) hr hrest (by simp only; omega) (by simp only; omega) (by simp only; omega)
+    | deleteSheet n =>
+      obtain ⟨b', hd, hok, hs1, hs2⟩ := deleteSheet_ok s.1 n h
+      simp only [runAll, stepAll, hd, Out.bind]
+      have := maxSheetId_sublist hs1 0
+      have := maxRelNum_sublist' hs2 0
+      exact ih (b', s.2) hok hr hrest (by simp only; omega) (by simp only; omega) (by simp only; omega)
+    | addRel ty tg md =>
+      have hu : uniqPart ty = none := hops (AllOp.addRel ty tg md) (by simp)
+      have hno1 : maxRelNum s.2 0 + 1 < 9223372036854775808 := by omega
+      obtain ⟨heq, _⟩ := rid_fresh s.2 ty tg md hu hno1
+      have hstep := (wf_step_addRel s.2 ty tg md hu hno1 hr).1
+      have hmax : maxRelNum (addRels s.2 ty tg md).1 0 ≤ maxRelNum s.2 0 + 1 := by
+        rw [heq]; exact maxRelNum_append_new s.2 ty tg md hno1
+      simp only [runAll, stepAll, Out.bind]
+      exact ih (s.1, (addRels s.2 ty tg md).1) h hstep hrest (by simp only; omega) (by simp only; omega) (by simp only; omega)
+    | deleteRel rid =>
+      obtain ⟨r', hd, hok', hsub, _, _⟩ := wf_step_deleteRel s.2 rid hr
+      simp only [runAll, stepAll, hd, Out.bind]
+      have := maxRelNum_sublist' hsub 0
+      exact ih (s.1, r') h hok' hrest (by simp only; omega) (by simp only; omega) (by simp only; omega)
+    | addContentTypePart i k =>
+      simp only [runAll, stepAll, Out.bind]
+      exact ih (_, s.2) (addCT_ok s.1 i k h (wf_step_addContentTypePart s.1.ct i k h.ct)) hr hrest
+        (by simp only; omega) (by simp only; omega) (by simp only; omega)
+    | removeContentTypesPart c p =>
+      have hne : c ≠ ctWorksheet := hops (AllOp.removeContentTypesPart c p) (by simp)
+      obtain ⟨ct', hd, hok'⟩ := removeCT_ok s.1 c p h hne
+      simp only [runAll, stepAll, hd, Out.bind]
+      exact ih (_, s.2) hok' hr hrest (by simp only; omega) (by simp only; omega) (by simp only; omega)
+    | copyRels =>
+      simp only [runAll, stepAll, Out.bind]
+      have := maxRelNum_filter_le s.2 (fun r => r.type != sl Facts.C05.relDrawing && r.type != sl Facts.C05.relTable) 0
+      exact ih (s.1, copyRels s.2) h (wf_step_copySheet s.2 hr).1 hrest (by simp only; omega) (by simp only; omega)
+        (by simp only [copyRels]; omega)
+
 /-- non-vacuity: the template satisfies the hypotheses of `wf_reachable_book` -/
 example : BookOk initBook ∧ maxRelNum initBook.wbRels 0 = 3 ∧ maxSheetId initBook.sheets 0 = 1 :=
   ⟨wf_init_book, by decide +kernel, by decide +kernel⟩
@@ -619,6 +712,97 @@ theorem delpic_keeps_referenced_media (own others : List Rel) (media : List Str)
       · apply hused
         rw [List.any_eq_true]
         exact ⟨x, hx, by simp [hty, heq]⟩
+
+/-! ## element order inside worksheets and chart sheets -/
+
+theorem stepOk_of_ltB {schema : List String} {a b : String} (h : ltB schema a b = true) : stepOk schema a b = true := by
+  unfold ltB at h
+  unfold stepOk
+  cases ha : rankIn schema a <;> cases hb : rankIn schema b <;> simp_all
+
+theorem okAfter_replicate_self (schema : List String) (f : String) (n : Nat) (tail : List String)
+    (hk : (rankIn schema f).isSome = true) (hr : n = 0 ∨ repeatable f = true) :
+    okAfter schema (some f) (List.replicate n f ++ tail) = okAfter schema (some f) tail := by
+  induction n with
+  | zero => rfl
+  | succ n ih =>
+    have hrep : repeatable f = true := by rcases hr with h | h; exact absurd h (by omega); exact h
+    have hs : stepOk schema f f = true := by
+      unfold stepOk
+      cases hf : rankIn schema f with
+      | none => rw [hf] at hk; cases hk
+      | some i => simp [hrep]
+    simp only [List.replicate_succ, List.cons_append, okAfter, hs, Bool.true_and]
+    exact ih (Or.inr hrep)
+
+/-- one field, emitted `n` times (at most once unless repeatable), after a smaller (or no) element -/
+theorem okAfter_field (schema : List String) (prev : Option String) (f : String) (n : Nat) (tail : List String)
+    (hk : (rankIn schema f).isSome = true) (hp : ∀ a, prev = some a → ltB schema a f = true)
+    (hn : n ≤ 1 ∨ repeatable f = true) :
+    okAfter schema prev (List.replicate n f ++ tail) = okAfter schema (if n = 0 then prev else some f) tail := by
+  cases n with
+  | zero => rfl
+  | succ n =>
+    have hr : n = 0 ∨ repeatable f = true := by rcases hn with h | h; exact Or.inl (by omega); exact Or.inr h
+    simp only [List.replicate_succ, List.cons_append, Nat.succ_ne_zero, if_false]
+    cases prev with
+    | none => simp only [okAfter, hk, Bool.true_and]; exact okAfter_replicate_self schema f n tail hk hr
+    | some a =>
+      simp only [okAfter, stepOk_of_ltB (hp a rfl), Bool.true_and]
+      exact okAfter_replicate_self schema f n tail hk hr
+
+theorem ltB_trans {schema : List String} {a b c : String} (h1 : ltB schema a b = true) (h2 : ltB schema b c = true) :
+    ltB schema a c = true := by
+  unfold ltB at *
+  cases ha : rankIn schema a <;> cases hb : rankIn schema b <;> cases hc : rankIn schema c <;> simp_all <;> omega
+
+theorem emitSeq_ok (schema : List String) (fields : List String) (count : String → Nat) (prev : Option String)
+    (hf : fieldsFollow schema fields = true) (hp : ∀ a, prev = some a → ∀ f ∈ fields, ltB schema a f = true)
+    (hn : ∀ f ∈ fields, count f ≤ 1 ∨ repeatable f = true) :
+    okAfter schema prev (emitSeq fields count) = true := by
+  induction fields generalizing prev with
+  | nil => rfl
+  | cons f fs ih =>
+    simp only [fieldsFollow, Bool.and_eq_true] at hf
+    obtain ⟨⟨hk, hall⟩, hrest⟩ := hf
+    have hall' : ∀ g ∈ fs, ltB schema f g = true := fun g hg => List.all_eq_true.mp hall g hg
+    unfold emitSeq
+    rw [List.flatMap_cons]
+    rw [okAfter_field schema prev f (count f) _ hk (fun a ha => hp a ha f (by simp)) (hn f (by simp))]
+    apply ih
+    · exact hrest
+    · intro a ha g hg
+      split at ha
+      · exact hp a ha g (by simp [hg])
+      · cases ha; exact hall' g hg
+    · intro g hg; exact hn g (by simp [hg])
+
+/-- `worksheet_writer_emits_schema_order`: whatever subset of its fields a worksheet carries
+(each pointer field present or absent, the slice field `conditionalFormatting` any number of
+times), the element sequence that encoding/xml — and the stream writer, which copies the same
+fields by index — produces from the regenerated field order of `xlsxWorksheet` passes the
+`element-order` conjunct of `WF` (the xsd:sequence of CT_Worksheet); likewise `xlsxChartsheet`
+and CT_Chartsheet. Moving a field in the struct breaks this theorem. -/
+theorem worksheet_writer_emits_schema_order (count : String → Nat)
+    (hws : ∀ f ∈ Facts.C05.wsFieldOrder, f ∉ Facts.C05.wsFieldOrderSlices → count f ≤ 1)
+    (hcs : ∀ f ∈ Facts.C05.csFieldOrder, f ∉ Facts.C05.csFieldOrderSlices → count f ≤ 1) :
+    chainOk wsSchemaOrder (emitSeq Facts.C05.wsFieldOrder count) = true ∧
+    chainOk csSchemaOrder (emitSeq Facts.C05.csFieldOrder count) = true := by
+  have h1 : fieldsFollow wsSchemaOrder Facts.C05.wsFieldOrder = true := by decide +kernel
+  have h2 : fieldsFollow csSchemaOrder Facts.C05.csFieldOrder = true := by decide +kernel
+  have h3 : ∀ f ∈ Facts.C05.wsFieldOrderSlices, repeatable f = true := by decide +kernel
+  have h4 : ∀ f ∈ Facts.C05.csFieldOrderSlices, repeatable f = true := by decide +kernel
+  constructor
+  · apply emitSeq_ok _ _ _ none h1 (fun a ha => by cases ha)
+    intro f hf
+    by_cases hs : f ∈ Facts.C05.wsFieldOrderSlices
+    · exact Or.inr (h3 f hs)
+    · exact Or.inl (hws f hf hs)
+  · apply emitSeq_ok _ _ _ none h2 (fun a ha => by cases ha)
+    intro f hf
+    by_cases hs : f ∈ Facts.C05.csFieldOrderSlices
+    · exact Or.inr (h4 f hs)
+    · exact Or.inl (hcs f hf hs)
 
 /-! ## shared strings -/
 
